@@ -137,6 +137,7 @@ def sibling_weights_permuted(rnd, spec):
             break
     else:
         return None
+    gen._slice("slice_sibling_weights_permuted")
     return {"cands": list(spec["cands"]), "ballots": [dict(b, w=w) for b, w in zip(spec["ballots"], p)]}
 
 
@@ -163,4 +164,5 @@ def sibling_candidates_changed(rnd, spec, cfg):
             cfg2[k] = max(1, min(cfg2[k], n))
     if "m_2" in cfg2:
         cfg2["m_2"] = max(1, min(cfg2["m_2"], cfg2.get("m_1", n)))
+    gen._slice("slice_sibling_candidate_lists")
     return {"cands": cs, "ballots": [dict(b) for b in spec["ballots"]]}, cfg2
